@@ -39,9 +39,42 @@ NMAX_CL, NMAX_MESH = 6, 4
 
 
 def selftest():
-    # the harness itself: two threads incrementing under the cooperative lock never lose updates,
-    # and a lock-free read-modify-write loses one under an adversarial schedule
-    pass
+    """The harness itself: under a round-robin schedule a lock-free read-modify-write loses an
+    update, the same workload under the cooperative lock never does, and an AB/BA lock order
+    is reported as a deadlock."""
+    from .. import sched_selftest as wl
+
+    files = {wl.__file__}
+    rr = lambda step, runnable, prev: runnable[step % len(runnable)]  # noqa: E731
+    box = [0]
+    s = sched.Sched(rr, files)
+    res, stalled = s.run([lambda: wl.bump(box, None), lambda: wl.bump(box, None)])
+    if stalled or box[0] != 1 or s.switches < 2:
+        raise engine.HarnessError(f"C07 harness self-test: lock-free race not reproduced (box={box[0]}, switches={s.switches})")
+    box = [0]
+    s = sched.Sched(rr, files)
+    lock = sched.SchedLock(s)
+    res, stalled = s.run([lambda: wl.bump(box, lock), lambda: wl.bump(box, lock), lambda: wl.bump(box, lock)])
+    if stalled or box[0] != 3 or s.deadlock or s.block_events < 1 or any(r[0] != "ok" for r in res):
+        raise engine.HarnessError(f"C07 harness self-test: cooperative lock failed (box={box[0]}, blocked={s.block_events})")
+    s = sched.Sched(rr, files)
+    la, lb = sched.SchedLock(s), sched.SchedLock(s)
+
+    def ab():
+        with la:
+            wl.bump([0], None)
+            with lb:
+                return 1
+
+    def ba():
+        with lb:
+            wl.bump([0], None)
+            with la:
+                return 2
+
+    res, stalled = s.run([ab, ba])
+    if not s.deadlock:
+        raise engine.HarnessError("C07 harness self-test: AB/BA deadlock not detected")
 
 
 def _expected(rbasis, q):
@@ -230,6 +263,6 @@ def shard_schedules(acc, shard, nshards, n_sched, n_stress, repeat, pct):
 
 def run(acc, tier):
     if tier == "quick":
-        engine.pmap(acc, shard_schedules, extra=(25, 2, 5, True))
+        engine.pmap(acc, shard_schedules, extra=(100, 3, 5, True))
     else:
         engine.pmap(acc, shard_schedules, extra=(400, 20, 30, True))
